@@ -451,6 +451,14 @@ pub fn check(case: &Case, ctx: &mut Ctx) -> R {
             ensure!(again.as_ref().ok() == Some(&parsed), "blobname-roundtrip", "blob name {n:?} parses to {parsed:?} which does not round-trip");
         }
     }
+    // digest parsing as done first by the wasm client (root hash handed over as a byte slice)
+    for n in [0usize, 1, 31, 32, 33, 64] {
+        let b: Vec<u8> = (0..n).map(|i| (i * 7 + case.muts.len()) as u8).collect();
+        match akd::hash::try_parse_digest(&b) {
+            Ok(d) => ensure!(n == 32 && d[..] == b[..], "digest-parse", "try_parse_digest accepted {n} bytes or changed them"),
+            Err(_) => ensure!(n != 32, "digest-parse", "try_parse_digest rejected a 32-byte digest"),
+        }
+    }
     // arbitrary bytes into every decoder
     for m in &case.muts {
         if let Mutn::Arbitrary(x) = m {
